@@ -13,6 +13,26 @@ import (
 
 var hashStrategies = []string{"ip_hash", "ip_hash_consistent"}
 
+// every strategy name the admin API's POST /v1/strategy accepts (lb.SetStrategy)
+var allStrategies = []string{"round_robin", "least_connections", "weighted_round_robin", "ip_hash", "ip_hash_consistent"}
+
+// setStrategy is the operator's strategy (re)selection: what POST /v1/strategy does. It leaves the
+// members and their ejection windows as they are, so the eligible set is the same before and after.
+func (p *pool) setStrategy(name string) error {
+	return p.lb.SetStrategy(name)
+}
+
+// awayStrategies are the names other than the given one.
+func awayStrategies(name string) []string {
+	var out []string
+	for _, s := range allStrategies {
+		if s != name {
+			out = append(out, s)
+		}
+	}
+	return out
+}
+
 // pool drives one real LoadBalancer (ip_hash / ip_hash_consistent) through its exported API and
 // the L1 fake network; membership and ejections are tracked on the harness side.
 type pool struct {
